@@ -8,6 +8,8 @@ import traceback
 import multiprocessing as mp
 
 VERIF = os.path.dirname(os.path.dirname(os.path.abspath(__file__)))
+# evidence / replays go to $VERIF_OUT if set (isolated mutant runs)
+OUT = os.environ.get('VERIF_OUT') or VERIF
 REPO = os.environ.get('EMG3D_REPO', '/repo')
 EXIT_HELD, EXIT_VIOLATION, EXIT_INCONCLUSIVE = 0, 1, 2
 
@@ -69,7 +71,7 @@ class Run:
         self.explanation = ''
         self.extra = {}
         # generated replay files of earlier runs of this property
-        d = os.path.join(VERIF, 'replays')
+        d = os.path.join(OUT, 'replays')
         if os.path.isdir(d):
             for f in os.listdir(d):
                 if f.startswith(pid+'-') and f.endswith('.json'):
@@ -176,7 +178,7 @@ class Run:
 
     # ------------------------------------------------------------------
     def _write_replay(self, key, o, desc):
-        d = os.path.join(VERIF, 'replays')
+        d = os.path.join(OUT, 'replays')
         os.makedirs(d, exist_ok=True)
         blob = json.dumps(o['cex'], sort_keys=True, default=str)
         h = hashlib.sha256((key+blob).encode()).hexdigest()[:10]
@@ -246,7 +248,7 @@ class Run:
         }
         ev['coverage'].update({k: v for k, v in self.extra.items()
                                if k != 'hashes'})
-        d = os.path.join(VERIF, 'evidence')
+        d = os.path.join(OUT, 'evidence')
         os.makedirs(d, exist_ok=True)
         with open(os.path.join(d, f"{self.pid}.json"), 'w') as f:
             json.dump(ev, f, indent=1, default=str)
